@@ -308,7 +308,8 @@ class Check:
         targets = list(targets)
         mk = COQ / "Makefile"
         if not mk.exists() or _project_stale():
-            r = subprocess.run([str(VERIF / "tools" / "mkproject.sh")], capture_output=True, text=True)
+            r = subprocess.run(["flock", str(COQ / ".build.lock"), str(VERIF / "tools" / "mkproject.sh")],
+                               capture_output=True, text=True)
             if r.returncode != 0:
                 self.violation("proof", {"what": "cannot regenerate coq Makefile", "stderr": r.stderr[-2000:]}, True)
                 return False
